@@ -56,7 +56,7 @@ def MetricsSorted (ms : List MetricInfo) : Prop := ms.Pairwise (fun a b => ltMet
 theorem study_roundtrip (cfg : Cfg) (s : Study) (h : StudyOk cfg s) (hs : MetricsSorted s.metrics) :
     studyFromProto cfg (studyToProto cfg s) = studyNorm s := by
   obtain ⟨space, metrics, md, alg, noise, auto, cached⟩ := s
-  simp only [studyFromProto, studyToProto, studyNorm, Study.mk.injEq, and_true, true_and]
+  simp only [studyFromProto, studyToProto, studyNorm, Study.mk.injEq, and_true]
   refine ⟨space_roundtrip cfg space h.space, ?_, mdFromProto_mdToProto md h.metadata⟩
   rw [metric_list_roundtrip metrics h.metrics]
   exact sortBy_of_sorted ltMetricName metrics hs
